@@ -188,16 +188,14 @@ theorem inStoryAt_eq (cs : List Xml) (j : Nat) (s : Xml) (f : List Xml → Out) 
     inStoryAt cs j f = ⟨cs.set j (s.withKids (f s.kids).kids), (f s.kids).warns, (f s.kids).err⟩ := by
   unfold inStoryAt; simp only [hs]
 
-theorem inStory_eq (mid : Option PyExc) (cs : List Xml) (sid : Key) (j : Nat) (s : Xml) (f : List Xml → Out)
-    (hw : WfKids "story" cs = true) (ha : addressed cs sid = some j) (hs : cs[j]? = some s) :
+theorem inStory_eq (mid : Option PyExc) (cs : List Xml) (sid : Key) (j : Nat) (s : Xml) (f : List Xml → Out) (ha : addressed cs sid = some j) (hs : cs[j]? = some s) :
     inStory mid cs sid f = ⟨cs.set j (s.withKids (f s.kids).kids), (f s.kids).warns, (f s.kids).err⟩ := by
   unfold inStory
-  rw [findRequired_ok "story" mid cs sid hw, ← addressed_eq_locate, ha]
+  rw [findRequired_ok "story" mid cs sid, ← addressed_eq_locate, ha]
   exact inStoryAt_eq cs j s f hs
 
 /-- an item-level merge edits the children of the addressed story by `itemFn` -/
 theorem mergeRc_item (k : Kind) (rc base : Xml) (j : Nat) (s : Xml) (hk : k.isItemLevel = true)
-    (hw : WfKids "story" rc.kids = true)
     (ha : addressed rc.kids (namedOf k base).story = some j) (hs : rc.kids[j]? = some s) :
     mergeRc k rc base none =
       ⟨rc.kids.set j (s.withKids (itemFn k base s.kids).kids), (itemFn k base s.kids).warns,
@@ -205,10 +203,10 @@ theorem mergeRc_item (k : Kind) (rc base : Xml) (j : Nat) (s : Xml) (hk : k.isIt
   cases k <;> first | (exact absurd hk (by decide)) | skip
   case ItemDelete =>
     simp only [namedOf] at ha
-    simp only [mergeRc, elemId_eq]; rw [inStory_eq none _ _ j s _ hw ha hs]; rfl
+    simp only [mergeRc, elemId_eq]; rw [inStory_eq none _ _ j s _ ha hs]; rfl
   case ItemInsert =>
     simp only [namedOf] at ha
-    simp only [mergeRc, elemId_eq]; rw [inStory_eq none _ _ j s _ hw ha hs]; rfl
+    simp only [mergeRc, elemId_eq]; rw [inStory_eq none _ _ j s _ ha hs]; rfl
   case ItemMoveMultiple =>
     simp only [namedOf] at ha
     simp only [mergeRc, elemId_eq]
@@ -217,28 +215,28 @@ theorem mergeRc_item (k : Kind) (rc base : Xml) (j : Nat) (s : Xml) (hk : k.isIt
     | some sid =>
       rw [hsid] at ha
       simp only
-      rw [inStory_eq none _ _ j s _ hw ha hs]; rfl
+      rw [inStory_eq none _ _ j s _ ha hs]; rfl
   case ItemReplace =>
     simp only [namedOf] at ha
-    simp only [mergeRc, elemId_eq]; rw [inStory_eq none _ _ j s _ hw ha hs]; rfl
+    simp only [mergeRc, elemId_eq]; rw [inStory_eq none _ _ j s _ ha hs]; rfl
   case EAItemReplace =>
     simp only [namedOf] at ha
-    simp only [mergeRc, elemId_eq]; rw [inStory_eq none _ _ j s _ hw ha hs]; rfl
+    simp only [mergeRc, elemId_eq]; rw [inStory_eq none _ _ j s _ ha hs]; rfl
   case EAItemDelete =>
     simp only [namedOf] at ha
     simp only [mergeRc, elemId_eq]
-    rw [findChildId_ok "story" rc.kids _ hw, ← addressed_eq_locate, ha]
+    rw [findChildId_ok "story" rc.kids _, ← addressed_eq_locate, ha]
     simp only
     rw [inStoryAt_eq _ j s _ hs]; rfl
   case EAItemInsert =>
     simp only [namedOf] at ha
-    simp only [mergeRc, elemId_eq]; rw [inStory_eq none _ _ j s _ hw ha hs]; rfl
+    simp only [mergeRc, elemId_eq]; rw [inStory_eq none _ _ j s _ ha hs]; rfl
   case EAItemSwap =>
     simp only [namedOf] at ha
-    simp only [mergeRc, elemId_eq]; rw [inStory_eq none _ _ j s _ hw ha hs]; rfl
+    simp only [mergeRc, elemId_eq]; rw [inStory_eq none _ _ j s _ ha hs]; rfl
   case EAItemMove =>
     simp only [namedOf] at ha
-    simp only [mergeRc, elemId_eq]; rw [inStory_eq none _ _ j s _ hw ha hs]; rfl
+    simp only [mergeRc, elemId_eq]; rw [inStory_eq none _ _ j s _ ha hs]; rfl
 
 /-! ### the addressed story stays addressable -/
 
